@@ -554,7 +554,7 @@ class Callx0(XtensaCoreInstruction):
     tokens = [RrrToken]
     s = Operand("s", AddressRegister, read=True)
     patterns = {"op2": 0, "op1": 0, "r": 0, "s": s, "t": 0xC, "op0": 0}
-    syntax = Syntax(["call0", " ", s])
+    syntax = Syntax(["callx0", " ", s])
 
 
 class J(XtensaCoreInstruction):
